@@ -65,6 +65,7 @@ func (m *colModel) dropField(name string) {
 var c19Kinds = []jsonapi.Attr{
 	{Type: jsonapi.AttrTypeInt}, {Type: jsonapi.AttrTypeString}, {Type: jsonapi.AttrTypeString, Nullable: true},
 	{Type: jsonapi.AttrTypeBytes}, {Type: jsonapi.AttrTypeBool}, {Type: jsonapi.AttrTypeUint64, Nullable: true}, {Type: jsonapi.AttrTypeTime},
+	{Type: jsonapi.AttrTypeBytes, Nullable: true}, {Type: jsonapi.AttrTypeTime, Nullable: true}, {Type: jsonapi.AttrTypeBool, Nullable: true}, {Type: jsonapi.AttrTypeInt8},
 }
 
 // drawColType draws a type over small name pools. crossKind: the attribute
@@ -118,7 +119,7 @@ func TestC19Store(t *testing.T) {
 			model.rels[rel.FromName] = rel
 		}
 
-		idPool := []string{"a", "b", "c", "d"}
+		idPool := []string{"a", "b", "c", "d", ""} // "": a resource whose ID is missing
 		history := []string{}
 		adds, hits, typeChanges := 0, 0, 0
 
